@@ -1289,3 +1289,100 @@ def txid_follows_scripts(ctx):
             ctx.require(p_ is None, 'transactions:Transaction.' + name, 'the scripts of an input are rewritten (`%s`) and the method can return without assigning self.txid' % norm(y)[:60], y,
                         't = Transaction(); t.add_input(...); t.add_output(...); t.sign(k): t.txid (and as_dict()["txid"], info()) is still the id the object had before signing, not the double-SHA256 of t.raw()')
     ctx.floor(n, 1, 'script rewrites in methods that change signatures')
+
+
+@PROP.obligation('C06.witness-list-kept', canaries=[
+    mut.replace_expr('transactions', 'Input.__init__', '[bytes.fromhex(w) if isinstance(w, str) else w for w in witnesses]', '[bytes.fromhex(w) if isinstance(w, str) else w for w in witnesses if w]', 'empty witness items are dropped'),
+    mut.replace_expr('transactions', 'Input.__init__', '[bytes.fromhex(w) if isinstance(w, str) else w for w in witnesses]', '[bytes.fromhex(w) if isinstance(w, str) else w for w in witnesses[:2]]', 'only two witness items kept'),
+])
+def witness_list_kept(ctx):
+    """A witness stack handed to Input(...) / add_input(...) as a list is serialized item by item: an EMPTY item is a stack element (the
+    CHECKMULTISIG dummy of every P2WSH multisig spend, the branch selector of an OP_IF). The statement of Input.__init__ that takes the
+    list over is evaluated on stacks with empty items, as bytes and as hex text: self.witnesses has the same items in the same order."""
+    q = 'transactions:Input.__init__'
+    fn = ctx.repo.func(q)
+    stmt = [s_ for s_ in fn.body if isinstance(s_, ast.If) and norm(s_.test) == 'isinstance(witnesses, bytes)']
+    if len(stmt) != 1:
+        ctx.undecided('Input.__init__: the statement that takes over the witnesses argument was not found')
+    n = 0
+    for given, exp in (([b'', b'\x30\x45\x01', b'\x51\xae'], [b'', b'\x30\x45\x01', b'\x51\xae']), ([b'\x30\x45', b'', b''], [b'\x30\x45', b'', b'']),
+                       (['', '304501', '51ae'], [b'', b'\x30\x45\x01', b'\x51\xae']), ([b'\x02\x03'], [b'\x02\x03'])):
+        it = Interp(ctx.repo, 'transactions', self_cls='transactions:Input')
+        st = State(env={'self': S(SELF), 'witnesses': list(given)})
+        st.heap[('attr', SELF, 'witnesses')] = []
+        it.frames.append([])
+        try:
+            end = it.exec_block(stmt, st)
+        except AnalysisError as e:
+            ctx.undecided('Input.__init__: witness statement not evaluable on %r: %s' % (given, str(e)[:100]))
+        it.frames.pop()
+        if end is None:
+            ctx.undecided('Input.__init__: witness statement raises on %r' % (given,))
+        got = end.heap.get(('attr', SELF, 'witnesses'))
+        n += 1
+        ctx.saw('witnesses=%r -> self.witnesses = %r' % (given, got))
+        ctx.require(got == exp, q, 'Input(..., witnesses=%r) keeps %r: %d of %d stack items' % (given, got, len(got) if isinstance(got, list) else -1, len(exp)), stmt[0],
+                    'the dummy element of a P2WSH multisig witness is dropped: raw() serializes a witness of 3 items where 4 were given, and the spend is invalid')
+    ctx.floor(n, 4, 'witness stacks')
+
+
+def _seek_calls(node_ast):
+    for y in ast.walk(node_ast):
+        if isinstance(y, ast.Call) and isinstance(y.func, ast.Attribute) and y.func.attr == 'seek':
+            yield y
+
+
+def _seek_kind(c):
+    """'end' for seek(x, 2) / seek(x, os.SEEK_END), 'abs' for seek(pos) / seek(pos, 0), 'rel' for seek(x, 1)"""
+    whence = c.args[1] if len(c.args) > 1 else next((k.value for k in c.keywords if k.arg == 'whence'), None)
+    if whence is None:
+        return 'abs'
+    w = norm(whence)
+    if w in ('2', 'os.SEEK_END', 'SEEK_END', 'io.SEEK_END'):
+        return 'end'
+    if w in ('0', 'os.SEEK_SET', 'SEEK_SET', 'io.SEEK_SET'):
+        return 'abs'
+    if w in ('1', 'os.SEEK_CUR', 'SEEK_CUR', 'io.SEEK_CUR'):
+        return 'rel'
+    return 'other'
+
+
+@PROP.obligation('C06.stream-rewound', canaries=[
+    mut.drop_stmt('blocks', 'Block.parse_bytesio', 'raw.seek(tx_start_pos)', 'the block stream stays at its end after its size was measured'),
+    mut.replace_stmt('blocks', 'Block.parse', 'return cls.parse_bytesio(raw, block_hash, height, parse_transactions, limit, network)',
+                     'b = cls.parse_bytesio(raw, block_hash, height, parse_transactions, limit, network)\nb.size = raw.seek(0, 2)\nreturn b', 'Block.parse measures the stream and leaves it at its end'),
+])
+def stream_rewound(ctx):
+    """A Block keeps the stream it was parsed from (txs_data) and both transaction readers continue reading it on demand; the transaction
+    and script parsers hand their stream back to the caller. A seek to the END of a stream (seek(x, 2), the idiom that measures the
+    size) is therefore followed on every path to a return by an absolute seek on the same stream: a stream left at its end yields no
+    transactions (parse_transactions_dict() == []) while header, hash and tx_count still look right."""
+    n = 0
+    total = 0
+    for modname in ('blocks', 'transactions', 'scripts', 'encoding'):
+        mod = ctx.repo.mod(modname)
+        for name, fn in sorted(mod.functions.items()):
+            ends = [c for c in _seek_calls(fn) if _seek_kind(c) in ('end', 'other')]
+            total += sum(1 for _ in _seek_calls(fn))
+            if not ends:
+                continue
+            q = '%s:%s' % (modname, name)
+            g = build_cfg(fn)
+            exits = [x.id for x in g.nodes if x.kind == 'return'] + [g.exit_return]
+            for node in g.nodes:
+                if node.ast is None:
+                    continue
+                for c in _seek_calls(node.ast) if node.kind == 'stmt' or not isinstance(node.ast, (ast.If, ast.For, ast.While, ast.Try, ast.With)) else ():
+                    if _seek_kind(c) not in ('end', 'other'):
+                        continue
+                    stream = norm(c.func.value)
+                    n += 1
+                    back = [m.id for m in g.nodes if m.ast is not None and m.id != node.id and not isinstance(m.ast, (ast.If, ast.For, ast.While, ast.Try, ast.With)) and
+                            any(_seek_kind(c2) == 'abs' and norm(c2.func.value) == stream for c2 in _seek_calls(m.ast))]
+                    p_ = g.path_avoiding(exits, via=back, start=node.id)
+                    ctx.saw('%s: %s, absolute seek on `%s` on every path afterwards: %s' % (q, norm(c), stream, p_ is None))
+                    ctx.require(p_ is None, q, '`%s` moves the stream to its end and the function can return without an absolute seek on `%s` (%s)' % (norm(c), stream, g.describe_path(p_) if p_ else ''), c,
+                                'Block.parse(BytesIO(raw)) returns a block whose transaction readers find the stream at its end: parse_transactions_dict() is empty and parse_transaction() raises, although hash and tx_count are right')
+    ctx.saw('%d seek calls in the parsers, %d of them to the end of a stream' % (total, n))
+    ctx.floor(n, 1, 'seeks to the end of a stream')
+    ctx.floor(total, 8, 'seek calls')
